@@ -240,6 +240,7 @@ def run_histories(binary, mode_args, hist_path, trace_path, n_hist, timeout=1800
     raw = trace_path + ".raw"
     open(trace_path, "w").close()
     crashes = 0
+    hangs = 0
     while start < n_hist:
         if os.path.exists(raw):
             os.remove(raw)
@@ -257,6 +258,12 @@ def run_histories(binary, mode_args, hist_path, trace_path, n_hist, timeout=1800
             f.write(json.dumps({"e": "crash", "rc": rc, "what": what[:400]}, separators=(",", ":")) + "\n")
         start = max(last_done + 2, start + 1)
         restarts += 1
+        # a history that burns its whole CPU budget (exit 74, event `hang`) costs a minute: three of them are enough for
+        # the trace specification to judge; going on would take hours on a tree where every history hangs
+        if rc == 74:
+            hangs += 1
+            if hangs >= 3:
+                break
         if restarts > max_restarts:
             # the recorded crash events are judged by the trace spec; the remaining histories are not executed
             break
